@@ -353,6 +353,41 @@ def decodeTop (ci : SCls → ClsInfo) (e : FmtEnv) (rootAttr : Bool) (chain : Li
   | .ok f => some (decodeNode ci f n)
   | .keyError => none
 
+/-! ### `output_ready` called on a string directly (bs4/element.py `NavigableString.output_ready`,
+    `PreformattedString.output_ready`, `PageElement.format_string`) -/
+
+/-- `s.output_ready(formatter)`; `arg = none` is `formatter=None`. `chain`/`rootAttr` decide the string's own `_is_xml`
+    (a string has `known_xml = None`, so its parents decide). `none` = the `KeyError` of an unknown registry key.
+    * `format_string`: `None` → the string unchanged; anything that is not a `Formatter` → `formatter_for_name`;
+      then `formatter.substitute(s)`.
+    * a preformatted class calls `format_string` only for its side effects (the lookup can still raise) and returns
+      `PREFIX + self + SUFFIX`. -/
+def strOutputReady (ci : SCls → ClsInfo) (e : FmtEnv) (rootAttr : Bool) (chain : List (Option Bool))
+    (arg : Option FmtArg) (pname : Option PStr) (c : SCls) (s : PStr) : Option PStr :=
+  let k := ci c
+  match arg with
+  | none => some (k.pre ++ s ++ k.suf)
+  | some a =>
+    match formatterForName e (isXmlImpl rootAttr chain) a with
+    | .keyError => none
+    | .ok f => some (if k.preformatted then k.pre ++ s ++ k.suf else k.pre ++ substitute f pname s ++ k.suf)
+
+/-! ### `Doctype.for_name_and_ids` / `_string_for_name_and_ids` (bs4/element.py) -/
+
+/-- `value = name or ""`; `' PUBLIC "%s"' % pub_id` (+ `' "%s"' % system_id`) or `' SYSTEM "%s"' % system_id` -/
+def doctypeString (name pub sys : Option PStr) : PStr :=
+  let v := name.getD []
+  match pub with
+  | some pb =>
+    let v := v ++ [32, 80, 85, 66, 76, 73, 67, 32, 34] ++ pb ++ [34]
+    match sys with
+    | some sy => v ++ [32, 34] ++ sy ++ [34]
+    | none => v
+  | none =>
+    match sys with
+    | some sy => v ++ [32, 83, 89, 83, 84, 69, 77, 32, 34] ++ sy ++ [34]
+    | none => v
+
 /-! ### spec of the event stream: the structural recursion over the tree -/
 
 mutual
